@@ -49,9 +49,16 @@ Lemma ob_decoders :
   /\ mapping_strict = false.
 Proof. repeat split; vm_compute; reflexivity. Qed.
 
-(* decoding "{}" gives exactly what NewIndexMapping() builds: the decode-side defaults and the
-   constructor agree (and that value is one the theorem covers) *)
+(* A key that is absent means what the constructor means: decoding "{}" gives exactly what
+   NewIndexMapping() / NewDocumentMapping() build (no option is defaulted differently by the decoder
+   than by the API), and that value is one the theorem covers. *)
 Lemma ob_constructor_is_decoded_empty_object :
   option_map Some new_index_mapping = Some (of_json case_fuel (JObj []))
   /\ option_map (wf_mapping case_fuel) new_index_mapping = Some true.
+Proof. split; vm_compute; reflexivity. Qed.
+
+Lemma ob_document_constructor_is_decoded_empty_object :
+  option_map Some new_document_mapping
+  = Some (dval mapping_env mapping_strict case_fuel (KPtrS (s2b "DocumentMapping")) VNil (JObj []))
+  /\ option_map (wf_value mapping_env case_fuel (KPtrS (s2b "DocumentMapping"))) new_document_mapping = Some true.
 Proof. split; vm_compute; reflexivity. Qed.
